@@ -250,8 +250,8 @@ func (e *Engine) noteUnknown(q string) {
 func (e *Engine) okGlobal(g *ssa.Global) bool {
 	// globals of uninitialised packages that are safe to read as zero values
 	switch g.String() {
-	case "sync/atomic.…":
-		return true
+	case "encoding/base64.StdEncoding", "encoding/base64.URLEncoding", "encoding/base64.RawStdEncoding", "encoding/base64.RawURLEncoding":
+		return true // only passed to the base64 models, never dereferenced
 	}
 	return false
 }
